@@ -44,6 +44,9 @@ EXTRA_STANDINS = {
     "xexec": {"props": {"C06", "C11"}, "short": "real text of the single-threaded executor's run loop and report, every task script up to the bound",
               "unit_of_count": "task scripts", "scenario_word": "script",
               "what": "contracts/xexec.rs: ExecutorInner::run (+ ExecutorInner, its Drop, ExecutorContext) of executor/st_executor.rs, ExecutorError, ModelId and macros/scoped_thread_local.rs cut from /repo with no rewrite rule, compiled against scripted tasks; every script up to the bound, also nested in an enclosing executor, compared with C06 (sent minus received, nothing leaked from or into the enclosing executor) and C11 (a panic is reported as Panic with the model and payload). Single-threaded executor only. LABELLED BOUNDED: not part of obligations/discharged."},
+    "xchan": {"props": {"C12", "C06"}, "short": "real text of channel.rs + channel/queue.rs, every cooperative schedule of two senders and the receiver up to the bound",
+              "unit_of_count": "schedules", "scenario_word": "schedule",
+              "what": "contracts/xchan.rs: channel.rs, channel/queue.rs and loom_exports.rs (whole files) compiled with no rewrite rule against executable stubs of async_event, diatomic_waker, recycle_box and crossbeam_utils; two sender tasks and the receiver task of one mailbox under every cooperative schedule on one thread, with a dropped blocked send or a dropped receiver; compared with C12 (capacity, exactly once in producer order, length, waiting tasks resumed, close) and C06 (in-flight counter). LABELLED BOUNDED: not part of obligations/discharged."},
     "xpq": {"props": {"C20", "C07"}, "short": "real text of both priority queues, every operation sequence up to the bound",
             "unit_of_count": "operation sequences", "scenario_word": "operation sequence",
             "what": "contracts/xpq.rs: util/priority_queue.rs and util/indexed_priority_queue.rs, each file whole up to its test module, cut from /repo with no rewrite rule and compiled as they stand; every operation sequence up to the bound compared with a reference list. LABELLED BOUNDED: not part of obligations/discharged."},
